@@ -119,8 +119,11 @@ public:
 
   shared_ptr &operator=(shared_ptr &&other) noexcept
   {
-    wrapper().~shared_ptr_wrapper();
-    other.wrapper().MoveTo(buffer_);
+    if (this != &other)
+    {
+      wrapper().~shared_ptr_wrapper();
+      other.wrapper().MoveTo(buffer_);
+    }
     return *this;
   }
 
@@ -132,8 +135,11 @@ public:
 
   shared_ptr &operator=(const shared_ptr &other) noexcept
   {
-    wrapper().~shared_ptr_wrapper();
-    other.wrapper().CopyTo(buffer_);
+    if (this != &other)
+    {
+      wrapper().~shared_ptr_wrapper();
+      other.wrapper().CopyTo(buffer_);
+    }
     return *this;
   }
 
